@@ -150,6 +150,12 @@ def fixed_cases():
     yield sub("root", [r("big.md", "Big", 4), r("plain.md", "Plain", None)], [sub("x", [r("SOUP.MD", "Loud", 2), r("Pie.Md", "Pie", 1)])]), 4   # servings == M
     yield sub("root", [r("twelve.md", "Party punch", 12), r("two.md", "Two", 2)]), 12
     yield sub("root", [r("foo.md", "Foo", 2), r("foo.MD", "Twin", 2)]), 2          # recorded finding: one page for two files
+    # category readmes whose titles begin or end with letters of the mark-up around them (h, 1, >, /)
+    rd = lambda t: dict(file="README.md", title=t, links=[])  # noqa
+    yield dict(name="root", readme=rd("h1 cooking at home 1"), recipes=[r("plain.md", "Plain", 2)], assets=[],
+               subdirs=[dict(name="a", readme=rd("Lunch"), recipes=[r("x.md", "X", 2)], subdirs=[], assets=[]),
+                        dict(name="b", readme=rd("Meal plan week 1"), recipes=[r("y.md", "Y", None)], subdirs=[], assets=[]),
+                        dict(name="c", readme=rd("hot dish"), recipes=[r("z.md", "Z", 1)], subdirs=[], assets=[])]), 2
     # recipes that point at one another and at a local file, in another directory too
     potato = dict(file="potato.md", title="Potato soup", servings=2, links=[("Lleek", "leek.md", ("recipe", "soups/leek.md")), ("Ipic", "pic.png", ("asset", "soups/pic.png"))])
     leek = dict(file="leek.md", title="Leek soup", servings=3, links=[("Lbread", "../bread.md", ("recipe", "bread.md")), ("Lroot", "/soups/potato.md", ("recipe", "soups/potato.md"))])
